@@ -225,7 +225,7 @@ package manager
 // tags named by the definition record the new name instead of the old one.
 //@ func (*Manager).UpdateTag$1$1@region:rename
 //@   prop C11
-//@   start before call parseTagName#1
+//@   start before call parseTagName#2
 //@   stop before call (*Manager).event#1
 //@   noframe
 //@   requires mgr != nil && mgr.tags != nil && tag != nil && haskey(mgr.tags, name) && mgr.tags[name] == tag
